@@ -73,7 +73,7 @@ theorem stripes_partition (sN sH sW sC eN eH eW eC stepH stepW : Nat) (slices : 
     (hsorted : slices.Pairwise (· ≤ ·))
     (hhead : ∀ a ∈ slices.head?, a ≤ sC) (hlast : ∃ x ∈ slices, eC ≤ x) :
     Partition (boxes.map toBox3) ⟨sH, eH, sW, eW, sC, eC⟩ := by
-  unfold ofmBoxes at hok
+  unfold ofmBoxes ofmBoxesRaw at hok
   split at hok
   · cases hok
   · rename_i hstep
